@@ -302,6 +302,17 @@ DJ = 'src/algorithms/shortest_path/dijkstra.rs'
 EV = 'src/algorithms/centrality/eigenvector.rs'
 WC = 'src/algorithms/components/weak_connectivity.rs'
 SITES = [
+    # ---- C05 / C06: the weighted search stage of betweenness.rs and of closeness.rs (sentinel f64::MAX) ----
+    ('C05', 'stageDist', 'src/algorithms/centrality/betweenness.rs', r'let vw_dist = (.*?);', 1, [('dist', 'dist', 'rat'), ('cost', 'c', 'rat')], 'rat'),
+    ('C05', 'stageImproves', 'src/algorithms/centrality/betweenness.rs', r'if (D\[w\] [^{;]*?) \{\s*(?://[^\n]*\n\s*)*seen\[w\] = vw_dist;', 0,
+     [('D[w]', 'dw', 'rat'), ('seen[w]', 'sw', 'rat'), ('vw_dist', 'vw', 'rat'), ('f64::MAX', 'fmax', 'rat')], 'bool'),
+    ('C05', 'stageTie', 'src/algorithms/centrality/betweenness.rs', r'\} else if (vw_dist [^{;]*?) \{', 0, [('vw_dist', 'vw', 'rat'), ('seen[w]', 'sw', 'rat')], 'bool'),
+    ('C05', 'stageSigmaReset', 'src/algorithms/centrality/betweenness.rs', r'push_fringe_node\(&mut fringe, v, w, vw_dist\);\s*sigma\[w\] = (.*?);\s*P\[w\] = vec!\[v\];', 0, [], 'rat'),
+    ('C05', 'stageSigmaTie', 'src/algorithms/centrality/betweenness.rs', r'sigma\[w\] \+= (.*?);\s*P\[w\]\.push\(v\);', 1, [('sigma[v]', 'sigmaV', 'rat')], 'rat'),
+    ('C06', 'stageDist', 'src/algorithms/centrality/closeness.rs', r'let vw_dist = (.*?);', 0, [('dist', 'dist', 'rat'), ('cost', 'c', 'rat')], 'rat'),
+    ('C06', 'stageImproves', 'src/algorithms/centrality/closeness.rs', r'if (D\[w\] [^{;]*?) \{\s*(?://[^\n]*\n\s*)*seen\[w\] = vw_dist;', 0,
+     [('D[w]', 'dw', 'rat'), ('seen[w]', 'sw', 'rat'), ('vw_dist', 'vw', 'rat'), ('f64::MAX', 'fmax', 'rat')], 'bool'),
+    ('C06', 'stageTie', 'src/algorithms/centrality/closeness.rs', r'\} else if (vw_dist [^{;]*?) \{', 0, [('vw_dist', 'vw', 'rat'), ('seen[w]', 'sw', 'rat')], 'bool'),
     # ---- C10: bfs_equal_size_partitions ----
     ('C10', 'partMaxSize', WC, r'let partition_max_size = (.*?);', 0, [('graph.number_of_nodes()', 'n', 'nat'), ('num_partitions', 'k', 'nat')], 'nat'),
     ('C10', 'partFullInner', WC, r'if (partitions\[partition\]\.len\(\) [=!<>]+ partition_max_size) \{', 0,
